@@ -254,7 +254,7 @@ func c19Run(sh *c19Shared, it c19Item) (res uint64) {
 		a := nasConvert.ModelsToSessionAMBR(&models.Ambr{Uplink: fmt.Sprintf("%d Mbps", r.Intn(65536)), Downlink: fmt.Sprintf("%d Kbps", r.Intn(65536))})
 		z := nasConvert.EncodeLocalTimeZoneToNas(fmtZone((r.Intn(159) - 79) * 900))
 		nm := nasConvert.FullNetworkNameToNas(string(gsm7Plain[:r.Intn(40)]))
-		ts := nasConvert.EncodeUniversalTimeAndLocalTimeZoneToNas(time.Unix(946684800+int64(r.Intn(3000000000)), 0).UTC())
+		ts := nasConvert.EncodeUniversalTimeAndLocalTimeZoneToNas(time.Unix(946684800+2*int64(r.Intn(1500000000))+int64(r.Intn(2)), 0).UTC())
 		back := nasConvert.DecodeUniversalTimeAndLocalTimeZone(ts)
 		psi := nasConvert.PSIToBuf(nasConvert.PSIToBooleanArray(r.Bytes(2)))
 		d := uint64(t3)<<8 ^ uint64(t2) ^ h64(a.Octet[:]) ^ uint64(z.Octet)<<16 ^ h64(nm.Buffer) ^ uint64(back.Unix()) ^ h64(psi)
@@ -289,7 +289,7 @@ func c19Run(sh *c19Shared, it c19Item) (res uint64) {
 	case "zones":
 		// instants in zones with daylight saving of one hour, thirty minutes and two hours
 		loc := c17Loc(r.Intn(len(c17Locations)))
-		t := time.Unix(946684800+int64(r.Intn(3000000000)), 0).In(loc)
+		t := time.Unix(946684800+2*int64(r.Intn(1500000000))+int64(r.Intn(2)), 0).In(loc)
 		z := nasConvert.GetTimeZone(t)
 		ts := nasConvert.EncodeUniversalTimeAndLocalTimeZoneToNas(t)
 		back := nasConvert.DecodeUniversalTimeAndLocalTimeZone(ts)
